@@ -35,9 +35,11 @@ ASSUMPTIONS = [
     'entity lump: keys are unique case-insensitively, not "nodeid", made of identifier characters; values contain no '
     'NUL, no ESC and are not of the shape "a,b,c,<number>,<number>" (the lump cannot tell those from connections); '
     'connection fields contain no separator, no ";" in instance names, names do not start with "instance:"; a '
-    'parameter contains no comma when the comma separator is used; delays have <= 5 significant digits (%g); '
+    'parameter contains no comma when the comma separator is used; delays are m x 10^e with m <= 99999, e in -9..9 (%g); '
     'text is ASCII + surrogate-escaped bytes',
-    'material / model names: < 128 bytes, no NUL, one letter case (the string table is case-insensitive); a brush '
+    'material names (TexData.mat): < 128 bytes, no NUL, one letter case - the texinfo writer deliberately looks materials up '
+    'in the string table with str.casefold; model names of static/detail props, the `textures` list and packed file names '
+    'are kept exactly as given, so pairs differing only in case ARE generated there; a brush '
     'model with solids has physics keyvalues; physics keyvalues are ASCII identifier-like (general escaping is C01); '
     'visibility rows have ceil(clusters/8) bytes; detail sprite dimensions contain no -0.0 (sprites are pooled by ==)',
     'the base file is consistent and the lumps of other views that index into a replaced table are not parsed',
@@ -188,7 +190,34 @@ MDLNAME = st.one_of(
     st.text('abcxyz_/0189.', min_size=1, max_size=12).map(lambda s: 'models/' + s + '.mdl'),
     st.integers(120, 127).map(lambda n: ('models/' + 'y' * 130)[:n]),
     st.sampled_from(['models/a.mdl', 'm\udcfe.mdl']),
+    # spellings that differ only in letter case: the model dictionaries keep names exactly as given
+    st.sampled_from(['models/Props/Grass01.mdl', 'models/props/grass01.mdl', 'MODELS/PROPS/GRASS01.MDL', 'models/A.mdl']),
 )
+
+
+CASE_MODELS = st.sampled_from(['models/Props/Grass01.mdl', 'models/props/grass01.mdl', 'MODELS/PROPS/GRASS01.MDL'])
+
+
+# Optional per-case pool of names that the props pick from by index ('name_ix'), so that several props share a name or
+# use spellings differing only in case; an empty pool means every prop uses its own generated name.
+NAME_POOL = st.one_of(st.just([]), st.just(['models/Props/Grass01.mdl', 'models/props/grass01.mdl', 'MODELS/PROPS/GRASS01.MDL']),
+                      st.just(['models/a.mdl', 'models/A.mdl', 'models/b.mdl']))
+
+
+def pooled_names(desc) -> list:
+    pool = desc.get('name_pool') or []
+    return [pool[d.get('name_ix', 0) % len(pool)] if pool else d['model'] for d in desc['props']]
+
+
+def case_variant_pair(names) -> bool:
+    """Two different strings that are equal after casefold()."""
+    seen: dict = {}
+    for n in names:
+        if seen.setdefault(n.casefold(), n) != n:
+            return True
+    return False
+
+
 LAYOUT = st.sampled_from(G.MAIN_LAYOUTS)
 LAYOUT_NOVIT = st.sampled_from([n for n in G.MAIN_LAYOUTS if n != 'v43'])
 LZ = st.sampled_from([False, False, True])
@@ -341,6 +370,8 @@ def execute_textures(desc, ctx):
         ctx.nontrivial(len(value) >= 2)
         if len(set(value)) < len(value):
             ctx.label('duplicate_name')
+        if case_variant_pair(value):
+            ctx.label('case_variant_pair')
         if not value and desc['lzma']:
             ctx.label('empty_compressed')
         c.bsp.textures = list(value)
@@ -896,7 +927,7 @@ def execute_overlays(desc, ctx):
 # static props
 
 PROP = st.fixed_dictionaries({
-    'model': MDLNAME, 'origin': VEC, 'angles': ANGLES, 'scale': st.one_of(F, VEC), 'leaves': st.lists(SMALL, max_size=3),
+    'model': MDLNAME, 'name_ix': SMALL, 'origin': VEC, 'angles': ANGLES, 'scale': st.one_of(F, VEC), 'leaves': st.lists(SMALL, max_size=3),
     'solidity': U8, 'flags': G.biased_int(0, (1 << 40) - 1, [0, 1, 0xFF, 0x100, 0x400, 0xFFFFFFFF, (1 << 40) - 1]),
     'skin': I32, 'min_fade': F, 'max_fade': F, 'lighting': st.one_of(st.none(), VEC), 'fade_scale': F,
     'min_dx': U16, 'max_dx': U16, 'cpu': st.lists(U8, min_size=4, max_size=4), 'tint': st.lists(U8, min_size=3, max_size=3),
@@ -934,6 +965,7 @@ def strat_props(tier):
         def per_layout(layout):
             return st.fixed_dictionaries({
                 'layout': st.just(layout), 'lzma': LZ, 'ver': st.just(ver), 'props': st.lists(PROP, max_size=4),
+                'name_pool': NAME_POOL,
                 # 'match': the file already has this version; 'switch': it has another one and static_prop_version is
                 # changed before saving; 'unparsed': props are assigned without reading the lump or choosing a version
                 'mode': st.sampled_from(['match', 'match', 'switch', 'unparsed']),
@@ -954,6 +986,9 @@ def execute_props(desc, ctx):
     with Case(desc, ctx, [], sprp_ver=base_ver, gl=['sprp']) as c:
         bsp = c.bsp
         ctx.label('sprp:' + ver)
+        names = pooled_names(desc)
+        if case_variant_pair(names):
+            ctx.label('case_variant_pair')
         ctx.label('props_mode:' + mode)
         leafs = list(bsp.visleafs)
         if mode != 'unparsed':
@@ -962,7 +997,7 @@ def execute_props(desc, ctx):
         mask = G.sprp_flag_mask(ver)
         uniform = ver != 'V_CHAOS_V13'
         value = []
-        for d in desc['props']:
+        for d, name in zip(desc['props'], names):
             sc = d['scale']
             if isinstance(sc, list):
                 scaling = Vec(sc[0], sc[0], sc[0]) if uniform else mk_vec(sc)
@@ -972,7 +1007,7 @@ def execute_props(desc, ctx):
             if d['lighting'] is not None:
                 kw['lighting'] = mk_vec(d['lighting'])
             value.append(StaticProp(
-                model=d['model'], origin=mk_vec(d['origin']), angles=Angle(*d['angles']), scaling=scaling,
+                model=name, origin=mk_vec(d['origin']), angles=Angle(*d['angles']), scaling=scaling,
                 visleafs={leafs[i % len(leafs)] for i in d['leaves']}, solidity=d['solidity'],
                 flags=StaticPropFlags(d['flags'] & mask), skin=d['skin'], min_fade=d['min_fade'], max_fade=d['max_fade'],
                 fade_scale=d['fade_scale'], min_dx_level=d['min_dx'], max_dx_level=d['max_dx'],
@@ -1006,15 +1041,15 @@ def execute_props(desc, ctx):
 
 F2 = st.tuples(FNZ, FNZ).map(list)
 DPROP = st.fixed_dictionaries({
-    'type': st.sampled_from(['model', 'sprite', 'shape', 'cross']), 'origin': VEC, 'angles': ANGLES,
+    'type': st.sampled_from(['model', 'model', 'sprite', 'shape', 'cross']), 'origin': VEC, 'angles': ANGLES,
     'orient': st.integers(0, 2), 'leaf': U16, 'lighting': st.lists(U8, min_size=4, max_size=4), 'styles': U32,
-    'style_count': U8, 'sway': U8, 'model': MDLNAME, 'scale': F, 'dims': st.lists(F2, min_size=4, max_size=4),
+    'style_count': U8, 'sway': U8, 'model': MDLNAME, 'name_ix': SMALL, 'scale': F, 'dims': st.lists(F2, min_size=4, max_size=4),
     'sprite_ref': st.one_of(st.none(), SMALL), 'shape_angle': U8, 'shape_size': U8,
 })
 
 
 def strat_detail(tier):
-    return st.fixed_dictionaries({'layout': LAYOUT, 'lzma': LZ, 'props': st.lists(DPROP, max_size=5)})
+    return st.fixed_dictionaries({'layout': LAYOUT, 'lzma': LZ, 'props': st.lists(DPROP, max_size=5), 'name_pool': NAME_POOL})
 
 
 def execute_detail(desc, ctx):
@@ -1023,12 +1058,15 @@ def execute_detail(desc, ctx):
     with Case(desc, ctx, [], gl=['dprp']) as c:
         value = []
         dims_seen: list = []
-        for d in desc['props']:
+        names = pooled_names(desc)
+        if case_variant_pair([n for n, d in zip(names, desc['props']) if d['type'] == 'model']):
+            ctx.label('case_variant_pair')
+        for d, name in zip(desc['props'], names):
             common = (mk_vec(d['origin']), Angle(*d['angles']), DetailPropOrientation(d['orient']), d['leaf'],
                       tuple(d['lighting']), (d['styles'], d['style_count']), d['sway'])
             ctx.label('detail:' + d['type'])
             if d['type'] == 'model':
-                value.append(DetailPropModel(*common, d['model']))
+                value.append(DetailPropModel(*common, name))
                 continue
             dims = [tuple(p) for p in d['dims']]
             if d['sprite_ref'] is not None and dims_seen:       # reuse an earlier sprite rectangle
@@ -1061,7 +1099,9 @@ ENT_VAL = st.one_of(
 OUT_NAME = st.text('abcOnTrigger_012', min_size=1, max_size=8)
 OUT_TEXT = st.text('abcXYZ 012._-!@/*', max_size=8)
 OUT_PARAM = st.one_of(OUT_TEXT, st.text('ab,c 1', max_size=6), st.text('a"b\\c\nd\t', max_size=5))
-DELAY = st.one_of(st.integers(0, 99999).map(lambda i: i / 100.0), st.sampled_from([0.0, 0.5, 1e-05, 12345.0, 1e10, 2.5e-07]))
+# m x 10^e with m <= 5 significant digits over all magnitudes '%g' writes exactly
+DELAY = st.one_of(st.integers(0, 99999).map(lambda i: i / 100.0), st.sampled_from([0.0, 0.5, 1e-05, 12345.0, 1e10, 2.5e-07, 1e-07]),
+                  st.tuples(st.integers(1, 99999), st.integers(-9, 9)).map(lambda t: float(f'{t[0]}e{t[1]}')))
 OUTPUT = st.fixed_dictionaries({
     'out': OUT_NAME, 'inst_out': st.one_of(st.none(), st.none(), OUT_NAME), 'target': OUT_TEXT, 'inp': OUT_NAME,
     'inst_in': st.one_of(st.none(), st.none(), OUT_NAME), 'param': OUT_PARAM, 'delay': DELAY,
@@ -1148,7 +1188,9 @@ def execute_ents(desc, ctx):
 
 
 def strat_pakfile(tier):
-    fname = st.text('abc/_.XY', min_size=1, max_size=10).filter(lambda s: not s.startswith('/') and not s.endswith('/'))
+    fname = st.one_of(
+        st.text('abc/_.XY', min_size=1, max_size=10).filter(lambda s: not s.startswith('/') and not s.endswith('/')),
+        st.sampled_from(['materials/Wall.vmt', 'materials/wall.vmt', 'MATERIALS/WALL.VMT']))
     return st.fixed_dictionaries({
         'layout': LAYOUT, 'files': st.lists(st.tuples(fname, st.binary(max_size=40).map(bytes.hex)).map(list), max_size=4,
                                            unique_by=lambda p: p[0]),
@@ -1169,6 +1211,8 @@ def execute_pakfile(desc, ctx):
         for name, hx in desc['files']:
             zf.writestr(name, bytes.fromhex(hx))
         want = ['Zip', [[name, hx] for name, hx in desc['files']], '']
+        if case_variant_pair([name for name, hx in desc['files']]):
+            ctx.label('case_variant_pair')
         ctx.nontrivial(len(desc['files']) >= 2)
         if not desc['append']:
             bsp.pakfile = zf
@@ -1570,8 +1614,31 @@ _LAYOUTS = tuple('layout:' + n for n in G.MAIN_LAYOUTS)
 _LAYOUTS_NOVIT = tuple(x for x in _LAYOUTS if x != 'layout:v43')
 
 
+def guarded(execute):
+    """Values are built from legal descriptor numbers with srctools' own constructors (flag enums, attrs classes).  If
+    such a constructor refuses a legal value the traceback ends in the standard library (enum.py), which the runner
+    would take for a harness bug - it is a finding: the view cannot hold what the on-disk field holds."""
+    import functools
+    import traceback as tb_mod
+
+    @functools.wraps(execute)
+    def run(desc, ctx):
+        try:
+            return execute(desc, ctx)
+        except ValueError as exc:
+            frames = tb_mod.extract_tb(exc.__traceback__)
+            if frames and frames[-1].filename.endswith('enum.py'):
+                mine = [f for f in frames if f.filename.endswith('c11_bsp_lump_inverse.py')]
+                ctx.fail('flag_word_rejected', f'a flag enum refuses a legal field value: {exc} (built at line '
+                                               f'{mine[-1].lineno if mine else "?"}: {mine[-1].line if mine else ""})',
+                         layout=desc.get('layout'))
+                return None
+            raise
+    return run
+
+
 def S(name, execute, strategy, quick, thorough, floor=20, must=(), layouts=_LAYOUTS):
-    return Sub(name, execute, strategy=strategy, quick=quick, thorough=thorough, quick_shards=4 if quick >= 400 else 2,
+    return Sub(name, guarded(execute), strategy=strategy, quick=quick, thorough=thorough, quick_shards=4 if quick >= 400 else 2,
                thorough_shards=16,
                floor=floor, must_hit=tuple(layouts) + tuple(must))
 
@@ -1585,7 +1652,7 @@ SUBCHECKS = [
     S('primitives', execute_primitives, strat_primitives, 300, 6000, layouts=_LAYOUTS_NOVIT),
     S('faces', execute_faces, strat_faces, 600, 14000, must=('edges:slice', 'edges:new', 'edges:tail', 'hdr')),
     S('brushes', execute_brushes, strat_brushes, 400, 10000, must=('shared_side',)),
-    S('textures', execute_textures, strat_textures, 300, 6000, must=('duplicate_name',)),
+    S('textures', execute_textures, strat_textures, 300, 6000, must=('duplicate_name', 'case_variant_pair')),
     S('texinfo', execute_texinfo, strat_texinfo, 400, 8000, must=('shared_texdata',)),
     S('tree', execute_tree, strat_tree, 600, 14000, must=('node_faces:slice', 'node_faces:tail', 'unlisted_node',
                                                           'unlisted_leaf', 'float_bounds', 'new_brush')),
@@ -1596,10 +1663,10 @@ SUBCHECKS = [
     S('bmodels', execute_bmodels, strat_bmodels, 400, 10000, must=('shared_model', 'phys_solids', 'model_faces:tail')),
     S('cubemaps', execute_cubemaps, strat_cubemaps, 200, 4000),
     S('overlays', execute_overlays, strat_overlays, 300, 6000, must=('faces64',)),
-    S('props', execute_props, strat_props, 800, 16000, must=tuple('sprp:' + v for v in G.SPRP_VERSIONS) + ('props_mode:match', 'props_mode:switch', 'props_mode:unparsed')),
+    S('props', execute_props, strat_props, 800, 16000, must=tuple('sprp:' + v for v in G.SPRP_VERSIONS) + ('props_mode:match', 'props_mode:switch', 'props_mode:unparsed', 'case_variant_pair')),
     S('detail', execute_detail, strat_detail, 400, 8000, must=('detail:model', 'detail:sprite', 'detail:shape',
-                                                               'detail:cross', 'shared_sprite')),
-    S('pakfile', execute_pakfile, strat_pakfile, 100, 2000, floor=5, must=('pak:new', 'pak:append')),
+                                                               'detail:cross', 'shared_sprite', 'case_variant_pair')),
+    S('pakfile', execute_pakfile, strat_pakfile, 150, 2000, floor=5, must=('pak:new', 'pak:append', 'case_variant_pair')),
     S('edits', execute_edits, strat_edits, 400, 8000, must=('edit:bm_del', 'edit:bm_move', 'edit:bm_share', 'edit:bm_new', 'edit:prop_del',
                                                        'edit:prop_move', 'edit:detail_del', 'edit:gl_del', 'edit:gl_add', 'edit:pak_drop')),
     S('reject', execute_reject, strat_reject, 400, 6000, floor=20, layouts=_LAYOUTS_NOVIT,
